@@ -545,6 +545,9 @@ def load_findings(prop):
 # --------------------------------------------------------------------------------------
 # check result bookkeeping
 
+ACTIVE_CHECKS = []        # Check objects of this process (run.py: a machinery error after recorded violations)
+
+
 class Check(object):
     """Collects what a check run covered; prints verdict lines; writes evidence."""
 
@@ -567,6 +570,8 @@ class Check(object):
         self.exhaustive = True
         self.rule = ""
         self.findings = load_findings(prop)
+        self.finished = False
+        ACTIVE_CHECKS.append(self)
 
     # -- TLC accounting
     def add_tlc(self, name, res, expect_violation=None, require_cover=()):
@@ -618,6 +623,7 @@ class Check(object):
         return None
 
     def finish(self, extra_cov=None):
+        self.finished = True
         wall = time.time() - self.t0
         cov = {
             "states": int(self.states),
